@@ -59,6 +59,15 @@ Order(sizes) == SortSeq([i \in DOMAIN sizes |-> i],
 \* least-loaded node, lowest index on ties
 LeastLoaded(load) == CHOOSE n \in DOMAIN load : \A m \in DOMAIN load : load[n] < load[m] \/ (load[n] = load[m] /\ n <= m)
 
+\* the whole greedy as a function: owner[i] = node (1-based) of split i
+RECURSIVE Greedy(_, _, _, _)
+Greedy(sizes, ord, pos, st) ==
+  IF pos > Len(ord) THEN st
+  ELSE LET i == ord[pos]
+           b == LeastLoaded(st.load)
+       IN Greedy(sizes, ord, pos + 1, [owner |-> [st.owner EXCEPT ![i] = b], load |-> [st.load EXCEPT ![b] = @ + sizes[i]]])
+LptOwner(sizes, N) == Greedy(sizes, Order(sizes), 1, [owner |-> [i \in DOMAIN sizes |-> 0], load |-> [n \in 1..N |-> 0]]).owner
+
 \* fidelity: what idle_nodes() must report (0-based node indices, ascending)
 IdleOk(a, idle) == /\ \A p \in DOMAIN idle : a.node_splits[idle[p] + 1] = 0
                    /\ Len(idle) = Cardinality({n \in DOMAIN a.node_splits : a.node_splits[n] = 0})
